@@ -79,6 +79,9 @@ var bodyDocs = []string{"", " ", "<", "<x/>", "<x>", "not xml", "<?xml version=\
 	"<AccessControlPolicy><Owner/><AccessControlList><Grant><Permission>READ</Permission></Grant></AccessControlList></AccessControlPolicy>",
 	"<AccessControlPolicy><Owner><ID>alice</ID></Owner><AccessControlList><Grant><Grantee/><Permission>READ</Permission></Grant></AccessControlList></AccessControlPolicy>",
 	"<AccessControlPolicy><Owner><ID>alice</ID></Owner><AccessControlList><Grant><Grantee><ID>bob</ID></Grantee></Grant></AccessControlList></AccessControlPolicy>",
+	"<AccessControlPolicy><Owner><ID>alice</ID></Owner><AccessControlList><Grant><Permission>READ</Permission></Grant></AccessControlList></AccessControlPolicy>",
+	"<AccessControlPolicy><Owner><ID>alice</ID></Owner><AccessControlList><Grant></Grant><Grant><Permission>FULL_CONTROL</Permission></Grant></AccessControlList></AccessControlPolicy>",
+	"<AccessControlPolicy><Owner><ID>alice</ID></Owner><AccessControlList/></AccessControlPolicy>", "<AccessControlPolicy><Owner><ID>alice</ID></Owner></AccessControlPolicy>",
 	"<VersioningConfiguration/>", "<VersioningConfiguration><Status/></VersioningConfiguration>", "<VersioningConfiguration><Status>Suspended</Status></VersioningConfiguration>",
 	"<ObjectLockConfiguration/>", "<ObjectLockConfiguration><Rule/></ObjectLockConfiguration>",
 	"<ObjectLockConfiguration><ObjectLockEnabled>Enabled</ObjectLockEnabled><Rule><DefaultRetention/></Rule></ObjectLockConfiguration>",
@@ -224,6 +227,33 @@ func build(fx *cat.Fixture, c caseA) (*s3c.Req, error) {
 			enc = []byte("zz;chunk-signature=\r\n\r\n")
 		case "truncated":
 			enc = enc[:len(enc)/2]
+		case "trailer-nocolon", "trailer-novalue", "trailer-colononly", "trailer-twice", "trailer-spaced", "trailer-empty":
+			// the trailer line of the stream (name:value) out of shape
+			const name = "x-amz-checksum-crc32"
+			if i := strings.LastIndex(string(enc), name+":"); i >= 0 {
+				rest := string(enc[i:])
+				eol := strings.Index(rest, "\r\n")
+				if eol < 0 {
+					eol = len(rest)
+				}
+				line, tail := rest[:eol], rest[eol:]
+				val := strings.TrimPrefix(line, name+":")
+				switch c.ChunkHack {
+				case "trailer-nocolon":
+					line = name
+				case "trailer-novalue":
+					line = name + ":"
+				case "trailer-colononly":
+					line = ":"
+				case "trailer-twice":
+					line = line + "\r\n" + line
+				case "trailer-spaced":
+					line = name + " : " + val
+				case "trailer-empty":
+					line = ""
+				}
+				enc = append(append([]byte{}, enc[:i]...), []byte(line+tail)...)
+			}
 		}
 		r.Body = enc
 	} else {
@@ -538,7 +568,8 @@ func genCase(t *rapid.T) caseA {
 	}
 	if e.Method == "PUT" && rapid.IntRange(0, 5).Draw(t, "chunked") == 0 {
 		c.Chunked = rapid.SampledFrom([]string{"signed", "unsigned"}).Draw(t, "chunk_mode")
-		c.ChunkHack = rapid.SampledFrom([]string{"", "neg-size", "huge-size", "big-size", "no-final", "garbage", "truncated"}).Draw(t, "chunk_hack")
+		c.ChunkHack = rapid.SampledFrom([]string{"", "neg-size", "huge-size", "big-size", "no-final", "garbage", "truncated",
+			"trailer-nocolon", "trailer-novalue", "trailer-colononly", "trailer-twice", "trailer-spaced", "trailer-empty"}).Draw(t, "chunk_hack")
 	}
 	return c
 }
@@ -637,6 +668,8 @@ func TestC20Sweep(t *testing.T) {
 			sp.Key = "mp"
 		case "CreateBucket", "CreateBucketLock":
 			sp.Bucket = "new"
+		case "PutBucketAcl", "GetBucketAcl", "PutObjectAcl", "GetObjectAcl":
+			sp.Bucket = "O" // the bucket with ACLs enabled: elsewhere the request is refused before its document is read
 		case "GetObjectVersion", "DeleteObjectVersion":
 			sp.Bucket, sp.Key = "V", "ver"
 		case "PutObjectRetention", "PutObjectLegalHoldOn", "PutObjectLegalHoldOff", "GetObjectRetention", "GetObjectLegalHold":
@@ -674,6 +707,19 @@ func TestC20Sweep(t *testing.T) {
 			}
 		}
 	}
+	// every malformation of an aws-chunked stream on the operations that take one
+	for _, opn := range []string{"PutObject", "UploadPart"} {
+		for _, mode := range []string{"signed", "unsigned"} {
+			for _, hack := range []string{"", "neg-size", "huge-size", "big-size", "no-final", "garbage", "truncated",
+				"trailer-nocolon", "trailer-novalue", "trailer-colononly", "trailer-twice", "trailer-spaced", "trailer-empty"} {
+				sp := cat.Spec{Op: opn, Bucket: "A", Key: "obj"}
+				if opn == "UploadPart" {
+					sp.Key = "mp"
+				}
+				cases = append(cases, caseA{Versioning: true, Spec: sp, Caller: "root", Chunked: mode, ChunkHack: hack})
+			}
+		}
+	}
 	// the signature's own headers cut at every interesting length, on a few representative operations
 	for _, opn := range []string{"GetObject", "PutObject", "ListBuckets", "DeleteObjects", "AdminListUsers"} {
 		if cat.Lookup(opn) == nil {
@@ -687,20 +733,7 @@ func TestC20Sweep(t *testing.T) {
 			}
 		}
 	}
-	limit := len(cases)
-	if os.Getenv("VERIF_TIER") != "thorough" {
-		// quick: every third case, rotated by the seed so that successive seeds cover the rest
-		seed := 0
-		fmt.Sscan(os.Getenv("VERIF_SEED"), &seed)
-		var sub []caseA
-		for i, c := range cases {
-			if (i+seed)%3 == 0 {
-				sub = append(sub, c)
-			}
-		}
-		cases = sub
-	}
-	_ = limit
+	// both tiers run the whole sweep (it is cheap); earlier the quick tier took every third case
 	failed := 0
 	for i, c := range cases {
 		if i%nshards != shard {
